@@ -1145,6 +1145,28 @@ def floats_exact(t: str) -> bool:
     return True
 
 
+def dup_before_syntax_error(t: str) -> bool:
+    """True iff Python's JSON scanner closes an object with a repeated key before it meets the ill-formed place of t
+    (t is known to be ill-formed): the duplicate is then reachable first by any left-to-right reader"""
+    import json as _json
+
+    class _Dup(Exception):
+        pass
+
+    def hook(pairs):
+        keys = [k for k, _ in pairs]
+        if len(set(keys)) != len(keys):
+            raise _Dup()
+        return dict(pairs)
+    try:
+        _json.loads(t, object_pairs_hook=hook)
+    except _Dup:
+        return True
+    except Exception:
+        return False
+    return False
+
+
 def check_parsews(run: Run, case, ans) -> list[Disagreement]:
     """arbitrary JSON input texts with whitespace (and escape / number spellings, duplicate keys): Lean RFC reader with ws
     = python json; fn:parse-json = model post-processing of the Lean reading = F&O policy"""
@@ -1164,6 +1186,12 @@ def check_parsews(run: Run, case, ans) -> list[Disagreement]:
         out.append(Disagreement(case_json(case), pyval, f['val'], what='lean-rfc-ws-reader vs python-json (spec validation)'))
         return out
     model = f['pj'] if f['pj'] != 'ERR' else 'ERR:FOJS0001'
+    if pv is None and case['policy'] == 'reject' and impl == 'ERR:FOJS0003' and dup_before_syntax_error(t):
+        # the text is ill-formed AND an object completed before the ill-formed place repeats a key: with
+        # duplicates=reject both FOJS0001 and FOJS0003 apply, and XPath 3.1 §2.3.4 lets a processor raise either
+        # (the JSON scanner reports the duplicate as soon as the object closes).  Not a disagreement.
+        run.stats.count('parsews:ill-formed text with an earlier duplicate under reject (FOJS0003 or FOJS0001 permitted)')
+        return out
     if impl != model:
         out.append(Disagreement(case_json(case), impl, model, what='parse-json on a text with whitespace', site='parse-json'))
     spec = f['spec'] if f['spec'] != 'ERR' else ('ERR:FOJS0003' if pv is not None else 'ERR:FOJS0001')
